@@ -1,6 +1,7 @@
 """C07 - remove_formatting removes exactly the requested settings, only inside the range."""
 from .. import obs as O
-from .common import Contract, ansi_values, history, run_cases, tier_sizes, safe_obs, norm_range, settings_texts
+from .common import (Contract, ansi_values, history, run_cases, tier_sizes, safe_obs, norm_range, settings_texts,
+                     GROUP_CODES)
 from ..gen import gen_range, gen_settings
 
 PROP = 'C07'
@@ -103,6 +104,53 @@ def contracts(ctx, mon):
     return [RemoveContract(ctx)]
 
 
+def remove_workshop(ctx, mon, rng, L):
+    """long overlapping settings from one or two groups, then several remove_formatting calls (and non-topmost
+    applies) whose bounds come from a tiny set of indices, so that range ends coincide with earlier range ends,
+    starts and restart points; the settings argument is sometimes one list object reused with changed contents"""
+    groups = rng.sample(sorted(GROUP_CODES), rng.choice([1, 2, 2]))
+    pool = []
+    for g in groups:
+        ap, cl = GROUP_CODES[g]
+        pool += ap[:2] + [cl]
+    n = rng.choice([8, 10, 12])
+    idx = sorted(rng.sample(range(0, n + 1), rng.choice([2, 3, 3, 4])))
+    with mon.quiet():
+        s = L.AnsiString('abcdefghijkl'[:n])
+        for _ in range(rng.choice([2, 3, 4])):
+            a = rng.choice([0, 0, 1, idx[0]])
+            b = rng.choice([n, n, None, n - 2, idx[-1]])
+            s.apply_formatting(rng.choice(pool), a, b, topmost=rng.random() < 0.8)
+        if rng.random() < 0.2:
+            s = L.AnsiStr(s)
+    shared = []
+    ctx.sig('remove-workshop')
+    for _ in range(rng.randint(2, 6)):
+        a, b = rng.choice(idx), rng.choice(idx + [None])
+        if b is not None and a > b:
+            a, b = b, a
+        try:
+            r = rng.random()
+            if r < 0.2 and isinstance(s, L.AnsiString):
+                with mon.quiet():
+                    s.apply_formatting(rng.choice(pool), a, b, topmost=False)
+                continue
+            if r < 0.35:
+                sel = None
+            elif r < 0.6:
+                # the same list object again, with other contents than last time
+                shared[:] = ['[' + c for c in rng.sample(pool, rng.choice([1, 1, 2]))]
+                sel = shared
+            else:
+                sel = '[' + rng.choice(pool)
+            if isinstance(s, L.AnsiString):
+                s.remove_formatting(sel, a, b)
+            else:
+                s = s.remove_formatting(sel, a, b)
+        except Exception:
+            pass
+
+
 def drive(ctx, mon, tier, only_case=None):
     L = ctx.L
     sz = tier_sizes(tier)
@@ -110,6 +158,8 @@ def drive(ctx, mon, tier, only_case=None):
     def body(rng, ex, case):
         profile = rng.choice(['wf', 'wf', 'mixed', 'hostile'])
         history(L, rng, ex, rng.randint(2, sz['nops']), sz['maxlen'], profile, WEIGHTS)
+        for _ in range(4):
+            remove_workshop(ctx, mon, rng, L)
         for v in ansi_values(L, ex)[-6:]:
             o = safe_obs(mon, v)
             if o is None:
